@@ -164,6 +164,31 @@ Section Refinement.
         repeat split; auto. congruence.
   Qed.
 
+  (* a refused single operation leaves the index exactly as it was - not merely the same contents: the same state, so
+     counters, links and entry point included *)
+  Theorem refused_single_is_noop s ch e : G s -> snd (p_apply X s ch) = OSingle e -> e <> ENone ->
+    fst (p_apply X s ch) = s.
+  Proof.
+    intros Gs O Ne. destruct ch as [id v m l|id v m|id|its|its|ids]; simpl in O |- *.
+    - unfold p_insert in *. destruct (view s id) as [x|] eqn:V.
+      + rewrite (ins_exists s id v m l x Gs V) in *. reflexivity.
+      + destruct (ins_new s id v m l Gs V) as (s' & E & _). rewrite E in *. simpl in O. injection O as <-. congruence.
+    - unfold p_update in *. pose proof (getv_spec s id Gs) as GV. destruct (getv X s id) as [[om lvl]|].
+      + destruct GV as (v0 & V). destruct (rem_present s id _ Gs V) as (s1 & E & G1 & P). rewrite E in *.
+        assert (V1 : view s1 id = None).
+        { unfold view. destruct (alookup id (items X s1)) as [y|] eqn:A; auto. exfalso.
+          pose proof (G_nodup s Gs) as ND. rewrite (Permutation_map fst P) in ND. simpl in ND. inversion ND as [|? ? Hn _]; subst.
+          apply Hn. apply in_map_iff. exists (id, y). split; auto. apply alookup_in. exact A. }
+        destruct (ins_new s1 id v (merge m om) lvl G1 V1) as (s2 & E2 & _). rewrite E2 in *. simpl in O. injection O as <-. congruence.
+      + reflexivity.
+    - unfold p_delete in *. destruct (view s id) as [x|] eqn:V.
+      + destruct (rem_present s id x Gs V) as (s' & E & _). rewrite E in *. simpl in O. injection O as <-. congruence.
+      + rewrite (rem_absent s id Gs V) in *. reflexivity.
+    - destruct (batch (p_ins4 X) id4 its s). discriminate.
+    - destruct (batch (p_upd3 X) id3 its s). discriminate.
+    - destruct (batch (p_delete X) (fun id => id) ids s). discriminate.
+  Qed.
+
   (* whole logs: same outcomes as the sequential map, same contents, invariant kept *)
   Theorem p_run_refines log : forall s c, G s -> eqc (view s) c ->
     G (fst (p_run X s log)) /\ eqc (view (fst (p_run X s log))) (fst (spec_run c log)) /\
